@@ -194,6 +194,42 @@ impl Drop for InFlightGuard {
     }
 }
 
+/// Keys whose commit-point write was abandoned while it was in flight; see
+/// [`CommitInFlight`].
+type AbandonedCommits = Arc<Mutex<HashSet<Path>>>;
+
+/// Held across the backend call that writes or deletes a commit point.
+///
+/// If the surrounding future is dropped while that call is pending
+/// (cancellation, timeout), the write may or may not have reached the
+/// backend — the same unknown outcome as an error return, except that no code
+/// after the `.await` runs to drop the cached document. Dropping the guard
+/// unsettled records the key instead, and the next cached read of that key
+/// invalidates its cache entry first (see
+/// [`SidecarStore::forget_abandoned_commit`]).
+struct CommitInFlight {
+    abandoned: AbandonedCommits,
+    key: Option<Path>,
+}
+
+impl CommitInFlight {
+    /// The backend call returned: its outcome was observed and handled.
+    fn settle(mut self) {
+        self.key = None;
+    }
+}
+
+impl Drop for CommitInFlight {
+    fn drop(&mut self) {
+        if let Some(key) = self.key.take() {
+            self.abandoned
+                .lock()
+                .unwrap_or_else(|err| err.into_inner())
+                .insert(key);
+        }
+    }
+}
+
 /// What a committed metadata document says about its key's payload, as
 /// gathered by the garbage collector's mark phase.
 enum PayloadRef {
@@ -227,6 +263,9 @@ pub(crate) struct SidecarStore<T: ObjectStore, M: SidecarMeta> {
     /// Generations written by this process whose pointer is not committed
     /// yet; see [`SidecarStore::track_in_flight`].
     in_flight: InFlightSet,
+    /// Keys whose cached document may be stale because a commit-point write
+    /// was cancelled mid-flight; see [`CommitInFlight`].
+    abandoned_commits: AbandonedCommits,
 }
 
 impl<T: ObjectStore, M: SidecarMeta> SidecarStore<T, M> {
@@ -239,6 +278,32 @@ impl<T: ObjectStore, M: SidecarMeta> SidecarStore<T, M> {
             meta_prefix: Path::from("meta"),
             meta_cache,
             in_flight: Arc::new(Mutex::new(HashSet::new())),
+            abandoned_commits: Arc::new(Mutex::new(HashSet::new())),
+        }
+    }
+
+    /// Arms a [`CommitInFlight`] guard for `location`.
+    fn commit_in_flight(&self, location: &Path) -> CommitInFlight {
+        CommitInFlight {
+            abandoned: self.abandoned_commits.clone(),
+            key: Some(location.clone()),
+        }
+    }
+
+    /// Drops the cached document of a key whose last commit-point write was
+    /// abandoned mid-flight, so the caller re-resolves the commit point
+    /// instead of serving (and handing out the CAS token of) a version that
+    /// may have been replaced.
+    async fn forget_abandoned_commit(&self, location: &Path) {
+        let abandoned = {
+            let mut set = self
+                .abandoned_commits
+                .lock()
+                .unwrap_or_else(|err| err.into_inner());
+            !set.is_empty() && set.remove(location)
+        };
+        if abandoned {
+            self.meta_cache.invalidate(location).await;
         }
     }
 
@@ -355,6 +420,7 @@ impl<T: ObjectStore, M: SidecarMeta> SidecarStore<T, M> {
     /// avoid. Concurrent loads of the same key are deduplicated by the
     /// section.
     pub(crate) async fn get_meta(&self, location: &Path) -> Result<Arc<M>> {
+        self.forget_abandoned_commit(location).await;
         if let Some(meta) = self.meta_cache.get(location).await {
             return Ok(meta);
         }
@@ -488,7 +554,8 @@ impl<T: ObjectStore, M: SidecarMeta> SidecarStore<T, M> {
                     source: format!("Failed to serialize Metadata for path {location}: {err:?}")
                         .into(),
                 })?;
-                match self
+                let pending = self.commit_in_flight(location);
+                let committed = self
                     .store
                     .put_opts(
                         &meta_path,
@@ -498,8 +565,9 @@ impl<T: ObjectStore, M: SidecarMeta> SidecarStore<T, M> {
                             ..Default::default()
                         },
                     )
-                    .await
-                {
+                    .await;
+                pending.settle();
+                match committed {
                     Ok(_) => {}
                     // A refused conditional create is a known outcome:
                     // nothing was written and the cache stays as it is.
@@ -587,7 +655,10 @@ impl<T: ObjectStore, M: SidecarMeta> SidecarStore<T, M> {
                     Err(err) => return Err(err),
                 }
 
-                match self.store.delete(&self.meta_path(location)).await {
+                let pending = self.commit_in_flight(location);
+                let deleted = self.store.delete(&self.meta_path(location)).await;
+                pending.settle();
+                match deleted {
                     Ok(()) | Err(Error::NotFound { .. }) => {}
                     // The commit point may be gone: drop the cached document
                     // (see `update_meta_with`) and report the failure.
@@ -684,6 +755,7 @@ impl<T: ObjectStore, M: SidecarMeta> SidecarStore<T, M> {
         policy: &ListingMetaPolicy<M>,
     ) -> Result<Option<ObjectMeta>> {
         let location = self.strip_meta_prefix(obj.location);
+        self.forget_abandoned_commit(&location).await;
         let meta: Arc<M> = if let Some(meta) = self.meta_cache.get(&location).await {
             meta
         } else {
